@@ -177,7 +177,9 @@ def run(ctx):
     run_pairs(ctx, n)
     run_compiled_pairs(ctx, max(20, n // 10))
     run_units(ctx, max(10, n // 15))
+    choicelib.run_stateful(ctx, 40 if ctx.tier == 'quick' else 600)
 
 
 def search(ctx):
     run_pairs(ctx, 2000, with_model=False)
+    choicelib.run_stateful(ctx, 300)
